@@ -23,6 +23,8 @@ Inductive outcome :=
 | OTimeoutConnecting     (* HTTPTimeoutError "Timeout while connecting" *)
 | OTimeoutRequest        (* HTTPTimeoutError "Timeout during request" *)
 | OClosedRead            (* HTTPStreamClosedError "Stream closed" *)
+| OClosedMalformed       (* HTTPStreamClosedError "Malformed response" (_read_response, fix 18bc8c4) *)
+| OClosedCallback        (* HTTPStreamClosedError "Connection closed" (on_connection_close) *)
 | OConnRefused           (* the exception tcp_client.connect() raised *)
 | OConnReset             (* stream.error (real_error of StreamClosedError) *)
 | OKeyError.             (* "unknown method" raised inside run() after connecting *)
@@ -215,7 +217,13 @@ Inductive event :=
 | EConnFail (a : nat)                (* tcp_client.connect() raises *)
 | ERespond (a : nat) (code : Z) (hasloc : bool)   (* a complete response arrives *)
 | EClose (a : nat)                   (* the server closes the stream (EOF) *)
-| EReset (a : nat).                  (* the stream fails with an OS error *)
+| EReset (a : nat)                   (* the stream fails with an OS error *)
+| EMalformed (a : nat)               (* a response head that HTTP1Connection cannot parse (bad status
+                                        line / header line): read_response closes the stream and
+                                        returns False, _read_response raises "Malformed response" *)
+| EBadFraming (a : nat).             (* a parsable head with invalid framing (Content-Length: x):
+                                        headers_received ran, then the connection is closed and
+                                        on_connection_close fails the request *)
 
 Definition step (e : event) (s : st) : st * list logev :=
   match e with
@@ -269,6 +277,18 @@ Definition step (e : event) (s : st) : st * list logev :=
       match get_st a s with
       | Some (AConn cb rel t POpen) =>
           handle_exception a OConnReset (set_st a (AConn cb rel t PFinished) s)
+      | _ => (s, [])
+      end
+  | EMalformed a =>
+      match get_st a s with
+      | Some (AConn cb rel t POpen) =>
+          handle_exception a OClosedMalformed (set_st a (AConn cb rel t PFinished) s)
+      | _ => (s, [])
+      end
+  | EBadFraming a =>
+      match get_st a s with
+      | Some (AConn cb rel t POpen) =>
+          handle_exception a OClosedCallback (set_st a (AConn cb rel t PFinished) s)
       | _ => (s, [])
       end
   end.
